@@ -386,6 +386,11 @@ func TestVerifE2E(t *testing.T) {
 		if cn.RawHeader != "" {
 			hdr, _ = base64.StdEncoding.DecodeString(cn.RawHeader)
 		} else {
+			for k, v := range cn.Header { // JSON numbers arrive as float64; the camera daemon sends ints
+				if f, ok := v.(float64); ok && f == float64(int64(f)) {
+					cn.Header[k] = int(f)
+				}
+			}
 			hdr, _ = yamlv1.Marshal(cn.Header) // the encoder leptond uses
 			hdr = append(hdr, '\n')
 		}
